@@ -286,6 +286,13 @@ func (g *progGen) leaf(t *T) string {
 }
 
 func (g *progGen) keyLeaf(t *T) string {
+	// a key computed from the environment (the entry set then depends on the invocation)
+	if g.r.Intn(4) == 0 {
+		if vs := g.varsOf(t); len(vs) > 0 {
+			g.hit("leaf:key-var")
+			return g.pick(vs)
+		}
+	}
 	switch t.K {
 	case "str":
 		return g.pick(keyStrPool)
